@@ -98,6 +98,8 @@ void harness(void) {
       if ((unsigned long)i < tail) {
         unsigned long b = IN(12 + i);
         ASSUME(b >= 0x20 && b <= 0x7e);
+        /* a label *line*: after the colon only blanks or a comment follow */
+        if (kind == 0) ASSUME(b == ' ' || b == '\t' || (i > 0 && raw1[p - i] == ';') || (i == 0 && b == ';'));
         raw1[p++] = (char)b;
       }
     raw1[p++] = '\n';
